@@ -583,6 +583,13 @@ func (w *Writer) WriteCompressed(refs []Reference, objects ...Object) error {
 		return nil
 	}
 
+	// The object stream itself needs a number which none of the objects uses:
+	// caller-chosen numbers may lie at or above the next free number.
+	for _, ref := range refs {
+		if w.nextRef <= ref.Number() {
+			w.nextRef = ref.Number() + 1
+		}
+	}
 	sRef := w.Alloc()
 	for i, ref := range refs {
 		err := w.setXRef(ref, &xRefEntry{InStream: sRef, Pos: int64(i)})
